@@ -86,6 +86,15 @@ def _origins(rd, node, expr, depth=6, _seen=None):
     return [expr]
 
 
+def _component(o, idx, *names):
+    """o denotes component `idx` of a call to one of `names`:  a, b = f(..)  or  f(..)[idx];  returns the call or None"""
+    if isinstance(o, tuple) and len(o) == 3 and o[0] == 'unpack' and _is_call_to(o[1], *names) and o[2] == idx:
+        return o[1]
+    if isinstance(o, ast.Subscript) and isinstance(o.slice, ast.Constant) and o.slice.value == idx and _is_call_to(o.value, *names):
+        return o.value
+    return None
+
+
 def _is_call_to(e, *names):
     return isinstance(e, ast.Call) and _callee(e) in names
 
@@ -301,9 +310,9 @@ def r3_split_walk(ctx):
     for d in init_defs:
         org = _origins(rd, d.node, d.value) if isinstance(d.value, ast.AST) else [d.value]
         for o in org:
-            if isinstance(o, tuple) and len(o) == 3 and o[0] == 'unpack' and _is_call_to(o[1], 'split') and o[2] == 0:
+            if _component(o, 0, 'split') is not None:
                 ok_init = True
-                first_part = o[1]
+                first_part = _component(o, 0, 'split')
             if _is_call_to(o, 'dirname'):
                 ok_init = True
     rep.ob('C17.R3', ctx.loc(f, init_defs[0].node.ast if init_defs else f.node), 'the walk starts at the directory of the module', ok_init,
@@ -357,7 +366,7 @@ def r3_split_walk(ctx):
         ok_l = len(ldefs) == 1 and isinstance(ldefs[0].value, ast.List) and len(ldefs[0].value.elts) == 1 and isinstance(ldefs[0].value.elts[0], ast.Name)
         if ok_l:
             o = _origins(rd, ldefs[0].node, ldefs[0].value.elts[0])
-            ok_l = any(isinstance(x, tuple) and len(x) == 3 and x[0] == 'unpack' and _is_call_to(x[1], 'split') and x[2] == 1 for x in o) or any(_is_call_to(x, 'basename') for x in o)
+            ok_l = any(_component(x, 1, 'split') is not None for x in o) or any(_is_call_to(x, 'basename') for x in o)
         rep.ob('C17.R3', ctx.loc(f, ldefs[0].node.ast if ldefs else f.node), 'the list of names starts with the module file name', ok_l,
                'parts = [basename(module path)]' if ok_l else 'the innermost component of the relative path is not the module file name', nontrivial=False, anchor=SPLIT)
 
@@ -440,6 +449,8 @@ def r4_name_derivation(ctx):
         ok_src = True
         for d in src:
             if d.kind == 'unpack' and isinstance(d.value, tuple) and _is_call_to(d.value[1], 'split_modpath') and d.value[2] == 1:
+                continue
+            if d.kind == 'assign' and isinstance(d.value, ast.AST) and _component(d.value, 1, 'split_modpath') is not None:
                 continue
             if d.kind == 'assign' and _is_call_to(d.value, 'relpath'):
                 continue
@@ -545,7 +556,7 @@ def r6_import_by_path(ctx):
     w = withs[0]
     c = w.ast.context_expr
     org = _origins(rd, w, c.args[0]) if c.args else []
-    ok = bool(org) and all(isinstance(o, tuple) and len(o) == 3 and o[0] == 'unpack' and _is_call_to(o[1], 'split_modpath') and o[2] == 0 and o[1].args and is_name(o[1].args[0], path) for o in org)
+    ok = bool(org) and all(_component(o, 0, 'split_modpath') is not None and _component(o, 0, 'split_modpath').args and is_name(_component(o, 0, 'split_modpath').args[0], path) for o in org)
     rep.ob('C17.R6', ctx.loc(f, c), ctx.src(c), ok,
            'the directory temporarily put on sys.path is component 0 of split_modpath(<the given path>)' if ok else
            'the directory put on sys.path is not the one split_modpath computed for the given path', anchor=CIMP)
